@@ -366,6 +366,50 @@ func forEachModelOver(f *Formula, relevant func(*Term) bool, fn func(asg Assignm
 			}
 			return nil
 		}
+		// unit propagation: literals that are top-level conjuncts are forced
+		if g.kind == fAnd || g.kind == fAtom || (g.kind == fNot && g.args[0].kind == fAtom) {
+			lits := []*Formula{g}
+			if g.kind == fAnd {
+				lits = g.args
+			}
+			for _, l := range lits {
+				var key string
+				var val bool
+				switch {
+				case l.kind == fAtom:
+					key, val = l.atom.Key(), true
+				case l.kind == fNot && l.args[0].kind == fAtom:
+					key, val = l.args[0].atom.Key(), false
+				default:
+					continue
+				}
+				if relevant != nil && !relevant(am[key]) {
+					continue // keep irrelevant atoms symbolic; they are handled by the residual check
+				}
+				h := g.assign(key, val, map[*Formula]*Formula{})
+				asg[key] = val
+				var forced []string
+				if val {
+					for _, other := range excl[key] {
+						if v, ok := asg[other]; ok {
+							if v {
+								h = FFalse
+							}
+							continue
+						}
+						h = h.assign(other, false, map[*Formula]*Formula{})
+						asg[other] = false
+						forced = append(forced, other)
+					}
+				}
+				err := rec(h, asg)
+				for _, o := range forced {
+					delete(asg, o)
+				}
+				delete(asg, key)
+				return err
+			}
+		}
 		// pick the first unassigned (relevant) atom occurring in g
 		var pick string
 		for _, t := range g.Atoms() {
